@@ -97,6 +97,66 @@ def gen_enc(r, mode, nparams, flavour=""):
     return case
 
 
+def partitions(n):
+    """all set partitions of positions 0..n-1 as restricted-growth strings: p[k] = group of parameter k"""
+    out = []
+
+    def rec(prefix, mx):
+        if len(prefix) == n:
+            out.append(list(prefix))
+            return
+        for g in range(mx + 2):
+            rec(prefix + [g], max(mx, g))
+    rec([0], 0)
+    return out
+
+
+def gen_encs(r, mode, pattern, vector="mix", share=True):
+    """parameters whose SHORT names collide according to `pattern` (same group = same argument name, in different
+    model instances); every parameter's received value is recorded separately by the probe instance that owns it"""
+    n = len(pattern)
+    layout, used = [], set()
+    for k, g in enumerate(pattern):
+        arg = "abcd"[g]
+        cands = [j for j in range(k + 1) if (j, arg) not in used]
+        j = k if (not share or r.random() < 0.6) else r.choice(cands)
+        used.add((j, arg))
+        layout.append([j, arg])
+    vecs = []
+    for k in range(n):
+        if vector == "none":
+            vecs.append(0)
+        elif vector == "all":
+            vecs.append(r.choice([1, 2, 3]))
+        else:
+            vecs.append(r.choice([0, 0, 0, 1, 2, 3]))
+    if mode == "sequential" and any(vecs):
+        # sequential mode merges the runs along 'id': vector parameters must all have one length
+        w = max(vecs)
+        vecs = [w if v else 0 for v in vecs]
+    case = dict(kind="encs", mode=mode, layout=layout, pattern="".join(map(str, pattern)),
+                sleep_scale=r.choice([0.0, 0.02, 0.04]), sleep_mult=r.randrange(1, 5))
+    if mode == "custom":
+        ps = [dict(w=(None if not v else v)) for v in vecs]
+        ncols = sum(1 if p["w"] is None else p["w"] for p in ps)
+        rows, seen = [], set()
+        for _ in range(r.randrange(1, 5)):
+            row = [r.randrange(0, 13) for _ in range(ncols)]
+            if tuple(row) not in seen:
+                seen.add(tuple(row))
+                rows.append(row)
+        case.update(params=ps, table=rows, defaults=[(0 if p["w"] is None else [0] * p["w"]) for p in ps])
+    else:
+        cap = {1: 4, 2: 3, 3: 3, 4: 2}[n]
+        ps = [dict(values=gen_values(r, v, r.randrange(1, cap + 1), sorted_=(r.random() < 0.3))) for v in vecs]
+        if all(len(p["values"]) == 1 for p in ps):
+            k = r.randrange(n)
+            ps[k] = dict(values=gen_values(r, vecs[k], 2))
+        case.update(params=ps, defaults=[([r.randrange(0, 13) for _ in range(v)] if v else r.randrange(0, 13))
+                                         for v in vecs])
+    return case
+
+
 def pick_scheds(r, k):
     s = [SCHEDS[i] for i in sorted(r.sample(range(len(SCHEDS)), k))]
     return s
@@ -129,6 +189,21 @@ def gen_cases(ctx: Ctx):
             c["scheds"] = c["scheds"][:1]
         c["outputs"] = (k % 3 == 0)
         cases.append(c)
+    # parameters whose short names collide (dimension names '<model>.<argument>'): every position pattern
+    # (set partition of the parameter positions) for 1..4 parameters; modes rotate with the seed in the quick tier
+    pats = [p for n in (1, 2, 3, 4) for p in partitions(n)]
+    modes3 = ["product", "custom", "sequential"]
+    rot = r.randrange(3)
+    for i, pat in enumerate(pats):
+        collide = len(set(pat)) < len(pat)
+        for mi, mode in enumerate(modes3):
+            if ctx.quick and not (mi == (i + rot) % 3 or (collide and len(pat) == 3 and mi == (i + rot + 1) % 3)):
+                continue
+            for rep in range(1 if ctx.quick else 2):
+                c = gen_encs(r, mode, pat, vector=("mix" if rep == 0 else "all"))
+                c["scheds"] = pick_scheds(r, 1 if ctx.quick else 2)
+                c["outputs"] = ((i + mi + rep) % 3 == 0)
+                cases.append(c)
     # process pool (slow to start): a few cases
     for j in range(ctx.budget(2, 8)):
         c = gen_enc(r, ["product", "custom"][j % 2], 2, "")
@@ -178,7 +253,7 @@ def ccell(c) -> str:
 
 
 def cmode(case) -> str:
-    if case["kind"] != "enc":
+    if case["kind"] not in ("enc", "encs"):
         return "(Product nil)"
     if case["mode"] == "product":
         return "(Product " + core.clist(core.clist(cpval(v) for v in p["values"]) for p in case["params"]) + ")"
@@ -235,7 +310,7 @@ def emit_case(sub) -> str:
         dk = "(Some (" + core.clist(core.cnat(n) for n in p[0]) + ", " + core.clist(ccell(c) for c in p[1]) + "))"
     fl = "None" if files is None else "(Some " + core.clist(
         f"({core.cnat(i) if 0 <= i < 5000 else '4999%nat'}, {cparams(d)})" for i, d in files) + ")"
-    return (f"(mkCase {cmode(case)} {core.cbool(case['kind'] == 'enc')} {seq} {dk} {fl})")
+    return (f"(mkCase {cmode(case)} {core.cbool(case['kind'] in ('enc', 'encs'))} {seq} {dk} {fl})")
 
 
 def emit_file(subs) -> str:
@@ -274,6 +349,8 @@ def classify(sub, is_mismatch):
     sig = dict(clause="params_agree", mode=mode, **{"class": cls})
     if cls == "other":
         sig["scheduler"] = sched
+        if kind == "encs":
+            sig["short_names"] = "collide" if len(set(case["pattern"])) < len(case["pattern"]) else "distinct"
         if files is not None and s is not None and p is not None:
             sig["files"] = True
     return "params_agree", sig
@@ -326,7 +403,10 @@ def account(ctx: Ctx, subs):
         ctx.count("evaluations", (len(s) if s else 0) + (len(p[1]) if p else 0))
         ctx.dist("kind", c["kind"])
         ctx.dist("scheduler", desc["sched"])
-        if c["kind"] in ("enc", "draw"):
+        if c["kind"] == "encs":
+            ctx.dist("short-name pattern", f"{len(c['pattern'])}:{c['pattern']}")
+            ctx.dist("collision/mode", f"{'collide' if len(set(c['pattern'])) < len(c['pattern']) else 'distinct'}/{c['mode']}")
+        if c["kind"] in ("enc", "encs", "draw"):
             ctx.dist("mode/nparams", f"{c['mode']}/{len(c['params'])}")
             ctx.dist("outputs", bool(files is not None))
         ncell = len(p[1]) if p else 0
